@@ -69,3 +69,131 @@ func CompareAndSwapInt32(p *int32, o, n int32) bool {
 	z("CompareAndSwapInt32")
 	return v
 }
+
+// ---- typed atomics: the same yields around the real operations ----
+
+type Pointer[T any] struct{ v atomic.Pointer[T] }
+
+func (p *Pointer[T]) Load() *T { y("Pointer.Load"); r := p.v.Load(); z("Pointer.Load"); return r }
+func (p *Pointer[T]) Store(x *T) {
+	y("Pointer.Store")
+	p.v.Store(x)
+	z("Pointer.Store")
+}
+func (p *Pointer[T]) Swap(x *T) *T { y("Pointer.Swap"); r := p.v.Swap(x); z("Pointer.Swap"); return r }
+func (p *Pointer[T]) CompareAndSwap(o, n *T) bool {
+	y("Pointer.CompareAndSwap")
+	r := p.v.CompareAndSwap(o, n)
+	z("Pointer.CompareAndSwap")
+	return r
+}
+
+type Value struct{ v atomic.Value }
+
+func (p *Value) Load() any { y("Value.Load"); r := p.v.Load(); z("Value.Load"); return r }
+func (p *Value) Store(x any) {
+	y("Value.Store")
+	p.v.Store(x)
+	z("Value.Store")
+}
+func (p *Value) Swap(x any) any { y("Value.Swap"); r := p.v.Swap(x); z("Value.Swap"); return r }
+func (p *Value) CompareAndSwap(o, n any) bool {
+	y("Value.CompareAndSwap")
+	r := p.v.CompareAndSwap(o, n)
+	z("Value.CompareAndSwap")
+	return r
+}
+
+type Bool struct{ v atomic.Bool }
+
+func (p *Bool) Load() bool { y("Bool.Load"); r := p.v.Load(); z("Bool.Load"); return r }
+func (p *Bool) Store(x bool) {
+	y("Bool.Store")
+	p.v.Store(x)
+	z("Bool.Store")
+}
+func (p *Bool) Swap(x bool) bool { y("Bool.Swap"); r := p.v.Swap(x); z("Bool.Swap"); return r }
+func (p *Bool) CompareAndSwap(o, n bool) bool {
+	y("Bool.CompareAndSwap")
+	r := p.v.CompareAndSwap(o, n)
+	z("Bool.CompareAndSwap")
+	return r
+}
+
+type Int32 struct{ v atomic.Int32 }
+
+func (p *Int32) Load() int32 { y("Int32.Load"); r := p.v.Load(); z("Int32.Load"); return r }
+func (p *Int32) Store(x int32) {
+	y("Int32.Store")
+	p.v.Store(x)
+	z("Int32.Store")
+}
+func (p *Int32) Add(d int32) int32  { y("Int32.Add"); r := p.v.Add(d); z("Int32.Add"); return r }
+func (p *Int32) Swap(x int32) int32 { y("Int32.Swap"); r := p.v.Swap(x); z("Int32.Swap"); return r }
+func (p *Int32) CompareAndSwap(o, n int32) bool {
+	y("Int32.CompareAndSwap")
+	r := p.v.CompareAndSwap(o, n)
+	z("Int32.CompareAndSwap")
+	return r
+}
+
+type Int64 struct{ v atomic.Int64 }
+
+func (p *Int64) Load() int64 { y("Int64.Load"); r := p.v.Load(); z("Int64.Load"); return r }
+func (p *Int64) Store(x int64) {
+	y("Int64.Store")
+	p.v.Store(x)
+	z("Int64.Store")
+}
+func (p *Int64) Add(d int64) int64  { y("Int64.Add"); r := p.v.Add(d); z("Int64.Add"); return r }
+func (p *Int64) Swap(x int64) int64 { y("Int64.Swap"); r := p.v.Swap(x); z("Int64.Swap"); return r }
+func (p *Int64) CompareAndSwap(o, n int64) bool {
+	y("Int64.CompareAndSwap")
+	r := p.v.CompareAndSwap(o, n)
+	z("Int64.CompareAndSwap")
+	return r
+}
+
+type Uint32 struct{ v atomic.Uint32 }
+
+func (p *Uint32) Load() uint32 { y("Uint32.Load"); r := p.v.Load(); z("Uint32.Load"); return r }
+func (p *Uint32) Store(x uint32) {
+	y("Uint32.Store")
+	p.v.Store(x)
+	z("Uint32.Store")
+}
+func (p *Uint32) Add(d uint32) uint32 { y("Uint32.Add"); r := p.v.Add(d); z("Uint32.Add"); return r }
+func (p *Uint32) Swap(x uint32) uint32 {
+	y("Uint32.Swap")
+	r := p.v.Swap(x)
+	z("Uint32.Swap")
+	return r
+}
+func (p *Uint32) CompareAndSwap(o, n uint32) bool {
+	y("Uint32.CompareAndSwap")
+	r := p.v.CompareAndSwap(o, n)
+	z("Uint32.CompareAndSwap")
+	return r
+}
+
+type Uint64 struct{ v atomic.Uint64 }
+
+func (p *Uint64) Load() uint64 { y("Uint64.Load"); r := p.v.Load(); z("Uint64.Load"); return r }
+func (p *Uint64) Store(x uint64) {
+	y("Uint64.Store")
+	p.v.Store(x)
+	z("Uint64.Store")
+}
+func (p *Uint64) Add(d uint64) uint64 { y("Uint64.Add"); r := p.v.Add(d); z("Uint64.Add"); return r }
+func (p *Uint64) Swap(x uint64) uint64 {
+	y("Uint64.Swap")
+	r := p.v.Swap(x)
+	z("Uint64.Swap")
+	return r
+}
+func (p *Uint64) CompareAndSwap(o, n uint64) bool {
+	y("Uint64.CompareAndSwap")
+	r := p.v.CompareAndSwap(o, n)
+	z("Uint64.CompareAndSwap")
+	return r
+}
